@@ -64,7 +64,7 @@ func init() {
 		reg(&propInfo{id: id, engine: "inproc", pkg: "snaps", level: "model_checking"})
 	}
 	reg(&propInfo{id: "C05", engine: "inproc", pkg: "snaps", level: "model_checking", needsE3: true})
-	reg(&propInfo{id: "C06", engine: "inproc", pkg: "snaps", level: "model_checking", racePass: true})
+	reg(&propInfo{id: "C06", engine: "inproc", pkg: "snaps", level: "model_checking", racePass: true, shardsQ: 16})
 	reg(&propInfo{id: "C12", engine: "inproc", pkg: "snaps", level: "model_checking", racePass: true})
 	reg(&propInfo{id: "C20", engine: "inproc", pkg: "snaps", level: "model_checking", racePass: true})
 	reg(&propInfo{id: "C13", engine: "inproc", pkg: "snaps", level: "exploration"})
